@@ -67,9 +67,8 @@ def updK {α : Type} (f : Key → α) (k : Key) (v : α) : Key → α := fun x =
 def updK2 {α : Type} (f : Key → Nat → α) (k : Key) (a : Nat) (v : α) : Key → Nat → α :=
   fun x y => if x = k ∧ y = a then v else f x y
 
-structure St where
-  limit : Nat := 0
-  asMin : Bool := false
+/-- the DataNode/Disk side of the master state: what the servers registered and all counters -/
+structure Core where
   nVid : Nat := 0
   conn : Nat → Bool := fun _ => false
   dcOf : Nat → Nat := fun _ => 0
@@ -83,6 +82,11 @@ structure St where
   cRack : Nat → Nat → Nat → Counts := fun _ _ _ => {}
   cDc : Nat → Nat → Counts := fun _ _ => {}
   cTopo : Nat → Counts := fun _ => {}
+
+/-- the whole master state: Core + volume layouts + EC shard map -/
+structure St extends Core where
+  limit : Nat := 0
+  asMin : Bool := false
   /-- layout, vid ↦ location list (data nodes in slice order) -/
   locs : Key → Nat → Option (List Nat) := fun _ _ => none
   /-- layout ↦ writables slice -/
@@ -94,52 +98,118 @@ structure St where
   /-- layouts ever created (GetVolumeLayout), for enumeration only -/
   keys : List Key := []
 
-/-! ## counters -/
+/-! ## counters (Core level: NodeImpl / DataNode / Disk) -/
+
+namespace Core
 
 /-- NodeImpl.UpAdjustDiskUsageDelta started at the data node `s` -/
-def nodeUp (st : St) (s t : Nat) (d : Counts) : St :=
-  { st with
-    cNode := upd2 st.cNode s t ((st.cNode s t).add d)
-    cRack := upd3 st.cRack (st.dcOf s) (st.rackOf s) t ((st.cRack (st.dcOf s) (st.rackOf s) t).add d)
-    cDc := upd2 st.cDc (st.dcOf s) t ((st.cDc (st.dcOf s) t).add d)
-    cTopo := upd1 st.cTopo t ((st.cTopo t).add d) }
+def nodeUp (c : Core) (s t : Nat) (d : Counts) : Core :=
+  { c with
+    cNode := upd2 c.cNode s t ((c.cNode s t).add d)
+    cRack := upd3 c.cRack (c.dcOf s) (c.rackOf s) t ((c.cRack (c.dcOf s) (c.rackOf s) t).add d)
+    cDc := upd2 c.cDc (c.dcOf s) t ((c.cDc (c.dcOf s) t).add d)
+    cTopo := upd1 c.cTopo t ((c.cTopo t).add d) }
 
 /-- UpAdjustDiskUsageDelta started at disk `t` of server `s` -/
-def upAdj (st : St) (s t : Nat) (d : Counts) : St :=
-  nodeUp { st with cDisk := upd2 st.cDisk s t ((st.cDisk s t).add d) } s t d
+def upAdj (c : Core) (s t : Nat) (d : Counts) : Core :=
+  nodeUp { c with cDisk := upd2 c.cDisk s t ((c.cDisk s t).add d) } s t d
 
-/-- first heartbeat of a stream: GetOrCreateDataCenter/Rack/DataNode -/
-def conn (st : St) (s dc rack maxH maxS : Nat) : St :=
-  if st.conn s then st else
-  let st1 : St := { st with
-    conn := upd1 st.conn s true
-    dcOf := upd1 st.dcOf s dc
-    rackOf := upd1 st.rackOf s rack
-    vols := fun x => if x = s then fun _ _ => none else st.vols x
-    ecs := fun x => if x = s then fun _ _ => 0 else st.ecs x
-    cDisk := fun x => if x = s then fun _ => {} else st.cDisk x
-    cNode := fun x => if x = s then fun _ => {} else st.cNode x }
-  let st2 := upAdj st1 s 0 { max := maxH }
-  if maxS > 0 then upAdj st2 s 1 { max := maxS } else st2
+/-- first heartbeat of a stream: GetOrCreateDataCenter/Rack/DataNode (link the node, then one Disk per reported type) -/
+def connect (c : Core) (s dc rack maxH maxS : Nat) : Core :=
+  if c.conn s then c else
+  let c1 : Core := { c with
+    conn := upd1 c.conn s true
+    dcOf := upd1 c.dcOf s dc
+    rackOf := upd1 c.rackOf s rack
+    vols := fun x => if x = s then fun _ _ => none else c.vols x
+    ecs := fun x => if x = s then fun _ _ => 0 else c.ecs x
+    cDisk := fun x => if x = s then fun _ => {} else c.cDisk x
+    cNode := fun x => if x = s then fun _ => {} else c.cNode x }
+  let c2 := upAdj c1 s 0 { max := maxH }
+  if maxS > 0 then upAdj c2 s 1 { max := maxS } else c2
 
 /-- DataNode.AdjustMaxVolumeCounts (one delta per disk type) -/
-def adjustMax1 (st : St) (s t m : Nat) : St :=
-  if m = 0 then st
-  else if (st.cNode s t).max = (m : Int) then st
-  else upAdj st s t { max := (m : Int) - (st.cNode s t).max }
+def adjustMax1 (c : Core) (s t m : Nat) : Core :=
+  if m = 0 then c
+  else if (c.cNode s t).max = (m : Int) then c
+  else upAdj c s t { max := (m : Int) - (c.cNode s t).max }
 
-def adjustMax (st : St) (s maxH maxS : Nat) : St :=
-  if st.conn s then adjustMax1 (adjustMax1 st s 0 maxH) s 1 maxS else st
+def adjustMax (c : Core) (s maxH maxS : Nat) : Core :=
+  if c.conn s then adjustMax1 (adjustMax1 c s 0 maxH) s 1 maxS else c
+
+def b2i (b : Bool) : Int := if b then 1 else 0
+
+/-- Disk.doAddOrUpdateVolume: (state, isNew, isChangedRO) -/
+def addOrUpdate (c : Core) (s : Nat) (v : VInfo) : Core × Bool × Bool :=
+  let t := v.key.disk
+  match c.vols s t v.id with
+  | none =>
+    (upAdj { c with vols := upd3 c.vols s t v.id (some v) } s t { vol := 1, rem := b2i v.remote }, true, false)
+  | some old =>
+    let c1 := if old.remote != v.remote then upAdj c s t { rem := b2i v.remote - b2i old.remote } else c
+    ({ c1 with vols := upd3 c1.vols s t v.id (some v) }, false, old.ro != v.ro)
+
+/-- `delete(disk.volumes, vid)` + the decrement UpdateVolumes / DeltaUpdateVolumes apply -/
+def delVol (c : Core) (s t vid : Nat) (remote : Bool) : Core :=
+  upAdj { c with vols := upd3 c.vols s t vid none } s t { vol := -1, rem := - b2i remote }
+
+/-- UpdateVolumes, first loop, on disk `t` (vids below `n`): registered volumes that the
+    heartbeat does not list are deleted; returns them -/
+def sweepGone (c : Core) (s : Nat) (actual : List VInfo) (t : Nat) : Nat → Core × List VInfo
+  | 0 => (c, [])
+  | n + 1 =>
+    let r := sweepGone c s actual t n
+    match r.1.vols s t n with
+    | some v => if actual.any (fun a => a.id == n) then r else (delVol r.1 s t n v.remote, r.2 ++ [v])
+    | none => r
+
+/-- UpdateVolumes, second loop: (state, new volumes, changed read-only) -/
+def addAll (c : Core) (s : Nat) : List VInfo → Core × List VInfo × List VInfo
+  | [] => (c, [], [])
+  | v :: vs =>
+    let r := addOrUpdate c s v
+    let q := addAll r.1 s vs
+    (q.1, if r.2.1 then v :: q.2.1 else q.2.1, if r.2.2 then v :: q.2.2 else q.2.2)
+
+/-- DataNode.UpdateVolumes: (state, new, deleted, changedRO) -/
+def updateVolumes (c : Core) (s : Nat) (actual : List VInfo) : Core × List VInfo × List VInfo × List VInfo :=
+  let g0 := sweepGone c s actual 0 (c.nVid + 1)
+  let g1 := sweepGone g0.1 s actual 1 (c.nVid + 1)
+  let a := addAll g1.1 s actual
+  (a.1, a.2.1, g0.2 ++ g1.2, a.2.2)
+
+/-- DataNode.DeltaUpdateVolumes: a deletion decrements whether or not the volume is registered,
+    and takes the remote flag from the (short) message -/
+def deltaUpdateVolumes (c : Core) (s : Nat) (news dels : List VInfo) : Core :=
+  let c := dels.foldl (fun c v => delVol c s v.key.disk v.id v.remote) c
+  news.foldl (fun c v => (addOrUpdate c s v).1) c
+
+/-- DataNode.GetVolumesById -/
+def volOf (c : Core) (s vid : Nat) : Option VInfo :=
+  match c.vols s 0 vid with
+  | some v => some v
+  | none => c.vols s 1 vid
+
+/-- the volumes registered on server `s` (all disks) -/
+def volumesOf (c : Core) (s : Nat) : List VInfo :=
+  (List.range 2).flatMap fun t => (List.range (c.nVid + 1)).filterMap fun vid => c.vols s t vid
+
+/-- UnRegisterDataNode, counter part: the node's usages are subtracted from the node and everything above; unlink -/
+def disconnect (c : Core) (s : Nat) : Core :=
+  let c := nodeUp c s 0 (c.cNode s 0).neg
+  let c := nodeUp c s 1 (c.cNode s 1).neg
+  { c with conn := upd1 c.conn s false }
+
+end Core
+
+open Core (b2i)
+
+def volOf (st : St) (s vid : Nat) : Option VInfo := st.toCore.volOf s vid
+def volumesOf (st : St) (s : Nat) : List VInfo := st.toCore.volumesOf s
 
 /-! ## layouts -/
 
 def copyCount (rp : Nat) : Nat := rp / 100 + (rp % 100) / 10 + rp % 10 + 1
-
-/-- DataNode.GetVolumesById -/
-def volOf (st : St) (s vid : Nat) : Option VInfo :=
-  match st.vols s 0 vid with
-  | some v => some v
-  | none => st.vols s 1 vid
 
 def locList (st : St) (k : Key) (vid : Nat) : List Nat := (st.locs k vid).getD []
 
@@ -211,53 +281,21 @@ def setUnavailable (st : St) (v : VInfo) (s : Nat) : St :=
       if l'.length < copyCount k.rp then removeWritable st k v.id else st
     else st
 
-/-! ## volumes of a data node -/
-
-def b2i (b : Bool) : Int := if b then 1 else 0
-
-/-- Disk.doAddOrUpdateVolume: (state, isNew, isChangedRO) -/
-def addOrUpdate (st : St) (s : Nat) (v : VInfo) : St × Bool × Bool :=
-  let t := v.key.disk
-  match st.vols s t v.id with
-  | none =>
-    (upAdj { st with vols := upd3 st.vols s t v.id (some v) } s t { vol := 1, rem := b2i v.remote }, true, false)
-  | some old =>
-    let st1 := if old.remote != v.remote then upAdj st s t { rem := b2i v.remote - b2i old.remote } else st
-    ({ st1 with vols := upd3 st1.vols s t v.id (some v) }, false, old.ro != v.ro)
-
-/-- the volumes registered on server `s` (all disks) -/
-def volumesOf (st : St) (s : Nat) : List VInfo :=
-  (List.range 2).flatMap fun t => (List.range (st.nVid + 1)).filterMap fun vid => st.vols s t vid
-
-/-- DataNode.UpdateVolumes: (state, new, deleted, changedRO) -/
-def updateVolumes (st : St) (s : Nat) (actual : List VInfo) : St × List VInfo × List VInfo × List VInfo :=
-  let gone := (volumesOf st s).filter fun v => !(actual.any fun a => a.id == v.id)
-  let st1 := gone.foldl (fun st v =>
-    upAdj { st with vols := upd3 st.vols s v.key.disk v.id none } s v.key.disk { vol := -1, rem := - b2i v.remote }) st
-  let r := actual.foldl (fun (acc : St × List VInfo × List VInfo) v =>
-    let (st', isNew, chg) := addOrUpdate acc.1 s v
-    (st', if isNew then acc.2.1 ++ [v] else acc.2.1, if chg then acc.2.2 ++ [v] else acc.2.2)) (st1, [], [])
-  (r.1, r.2.1, gone, r.2.2)
+/-! ## volume heartbeats (Topology level) -/
 
 /-- Topology.SyncDataNodeRegistration (full volume heartbeat) -/
 def syncFull (st : St) (s : Nat) (actual : List VInfo) : St :=
   if !st.conn s then st else
-  let (st, news, gone, chg) := updateVolumes st s actual
-  let st := news.foldl (fun st v => registerLayout st v s) st
-  let st := gone.foldl (fun st v => unregisterLayout st v s) st
-  chg.foldl (fun st v => ensureWritables (touchKey st v.key) v.key v.id) st
-
-/-- DataNode.DeltaUpdateVolumes: a deletion decrements whether or not the volume is registered,
-    and uses the (short) message's remote flag -/
-def deltaUpdateVolumes (st : St) (s : Nat) (news dels : List VInfo) : St :=
-  let st := dels.foldl (fun st v =>
-    upAdj { st with vols := upd3 st.vols s v.key.disk v.id none } s v.key.disk { vol := -1, rem := - b2i v.remote }) st
-  news.foldl (fun st v => (addOrUpdate st s v).1) st
+  let r := st.toCore.updateVolumes s actual
+  let st : St := { st with toCore := r.1 }
+  let st := r.2.1.foldl (fun st v => registerLayout st v s) st
+  let st := r.2.2.1.foldl (fun st v => unregisterLayout st v s) st
+  r.2.2.2.foldl (fun st v => ensureWritables (touchKey st v.key) v.key v.id) st
 
 /-- Topology.IncrementalSyncDataNodeRegistration -/
 def syncInc (st : St) (s : Nat) (news dels : List VInfo) : St :=
   if !st.conn s then st else
-  let st := deltaUpdateVolumes st s news dels
+  let st : St := { st with toCore := st.toCore.deltaUpdateVolumes s news dels }
   let st := news.foldl (fun st v => registerLayout st v s) st
   dels.foldl (fun st v => unregisterLayout st v s) st
 
@@ -272,80 +310,100 @@ def popcount (n : Nat) : Nat := popAux 32 n
 def bitsMinus (a b : Nat) : Nat := a - (a &&& b)
 def shardIds (bits : Nat) : List Nat := (List.range 14).filter fun i => bits.testBit i
 
+/-- the entry of the actual-shards map (last message for a vid wins) -/
+def actualBits (actual : List EcInfo) (vid : Nat) : Option Nat :=
+  actual.foldl (fun acc e => if e.id = vid then some e.bits else acc) none
+
+namespace Core
+
+def hasEc (c : Core) (s vid : Nat) : Bool := c.ecs s 0 vid != 0 || c.ecs s 1 vid != 0
+
+/-- the EC volumes registered on `s`: (disk type, vid, bits) -/
+def ecOf (c : Core) (s : Nat) : List (Nat × Nat × Nat) :=
+  (List.range 2).flatMap fun t => (List.range (c.nVid + 1)).filterMap fun vid =>
+    if c.ecs s t vid = 0 then none else some (t, vid, c.ecs s t vid)
+
+/-- UpdateEcShards, loop 1 body: one registered EC volume against the message (one delta per EC volume) -/
+def ecStep1 (s : Nat) (actual : List EcInfo) (acc : Core × List (Nat × Nat) × List (Nat × Nat)) (e : Nat × Nat × Nat) :
+    Core × List (Nat × Nat) × List (Nat × Nat) :=
+  match actualBits actual e.2.1 with
+  | none => (upAdj acc.1 s e.1 { ec := - (popcount e.2.2 : Int) }, acc.2.1, acc.2.2 ++ [(e.2.1, e.2.2)])
+  | some ab =>
+    let a := bitsMinus ab e.2.2
+    let d := bitsMinus e.2.2 ab
+    (upAdj acc.1 s e.1 { ec := (popcount a : Int) - (popcount d : Int) },
+     if popcount a > 0 then acc.2.1 ++ [(e.2.1, a)] else acc.2.1,
+     if popcount d > 0 then acc.2.2 ++ [(e.2.1, d)] else acc.2.2)
+
+/-- UpdateEcShards, loop 2 body: an EC volume of the message that was not registered before (`c0` = state at entry) -/
+def ecStep2 (c0 : Core) (s : Nat) (acc : Core × List (Nat × Nat)) (e : EcInfo) : Core × List (Nat × Nat) :=
+  if c0.hasEc s e.id then acc
+  else (upAdj acc.1 s e.disk { ec := (popcount e.bits : Int) }, acc.2 ++ [(e.id, e.bits)])
+
+/-- doUpdateEcShards, one entry -/
+def ecStore (s : Nat) (c : Core) (e : EcInfo) : Core := { c with ecs := upd3 c.ecs s e.disk e.id e.bits }
+
+/-- DataNode.UpdateEcShards: (state, new shards, deleted shards) as (vid, bits) lists -/
+def updateEcShards (c0 : Core) (s : Nat) (actual : List EcInfo) : Core × List (Nat × Nat) × List (Nat × Nat) :=
+  let r1 := (c0.ecOf s).foldl (ecStep1 s actual) (c0, [], [])
+  let r2 := actual.foldl (ecStep2 c0 s) (r1.1, r1.2.1)
+  -- doUpdateEcShards: only when something changed
+  let c : Core :=
+    if r2.2.isEmpty && r1.2.2.isEmpty then r2.1
+    else actual.foldl (ecStore s) { r2.1 with ecs := fun x => if x = s then fun _ _ => 0 else r2.1.ecs x }
+  (c, r2.2, r1.2.2)
+
+/-- Disk.AddOrUpdateEcShard -/
+def addEc (c : Core) (s : Nat) (e : EcInfo) : Core :=
+  let old := c.ecs s e.disk e.id
+  let new := old ||| e.bits
+  upAdj { c with ecs := upd3 c.ecs s e.disk e.id new } s e.disk { ec := (popcount new : Int) - (popcount old : Int) }
+
+/-- Disk.DeleteEcShard -/
+def delEc (c : Core) (s : Nat) (e : EcInfo) : Core :=
+  let old := c.ecs s e.disk e.id
+  if old = 0 then c else
+  let new := bitsMinus old e.bits
+  upAdj { c with ecs := upd3 c.ecs s e.disk e.id new } s e.disk { ec := (popcount new : Int) - (popcount old : Int) }
+
+/-- DataNode.DeltaUpdateEcShards -/
+def deltaUpdateEcShards (c : Core) (s : Nat) (news dels : List EcInfo) : Core :=
+  let c := news.foldl (fun c e => addEc c s e) c
+  dels.foldl (fun c e => delEc c s e) c
+
+end Core
+
 def registerEc (st : St) (vid bits s : Nat) : St :=
   (shardIds bits).foldl (fun st sh => { st with ecLoc := upd2 st.ecLoc vid sh (setLoc (st.ecLoc vid sh) s) }) st
 def unregisterEc (st : St) (vid bits s : Nat) : St :=
   (shardIds bits).foldl (fun st sh => { st with ecLoc := upd2 st.ecLoc vid sh ((st.ecLoc vid sh).erase s) }) st
 
-/-- the EC volumes registered on `s`: (disk type, vid, bits) -/
-def ecOf (st : St) (s : Nat) : List (Nat × Nat × Nat) :=
-  (List.range 2).flatMap fun t => (List.range (st.nVid + 1)).filterMap fun vid =>
-    if st.ecs s t vid = 0 then none else some (t, vid, st.ecs s t vid)
-
-def hasEc (st : St) (s vid : Nat) : Bool := st.ecs s 0 vid != 0 || st.ecs s 1 vid != 0
-
-/-- the entry of the actual-shards map (last message for a vid wins) -/
-def actualBits (actual : List EcInfo) (vid : Nat) : Option Nat :=
-  actual.foldl (fun acc e => if e.id = vid then some e.bits else acc) none
-
-/-- DataNode.UpdateEcShards + Topology.SyncDataNodeEcShards (full EC heartbeat) -/
-def syncEcFull (st0 : St) (s : Nat) (actual : List EcInfo) : St :=
-  if !st0.conn s then st0 else
-  -- loop 1: registered EC volumes against the message
-  let r1 := (ecOf st0 s).foldl (fun (acc : St × List (Nat × Nat) × List (Nat × Nat)) e =>
-    let (t, vid, bits) := e
-    match actualBits actual vid with
-    | none => (upAdj acc.1 s t { ec := - (popcount bits : Int) }, acc.2.1, acc.2.2 ++ [(vid, bits)])
-    | some ab =>
-      let a := bitsMinus ab bits
-      let d := bitsMinus bits ab
-      (upAdj acc.1 s t { ec := (popcount a : Int) - (popcount d : Int) },
-       if popcount a > 0 then acc.2.1 ++ [(vid, a)] else acc.2.1,
-       if popcount d > 0 then acc.2.2 ++ [(vid, d)] else acc.2.2)) (st0, [], [])
-  -- loop 2: EC volumes not registered before
-  let r2 := actual.foldl (fun (acc : St × List (Nat × Nat)) e =>
-    if hasEc st0 s e.id then acc
-    else (upAdj acc.1 s e.disk { ec := (popcount e.bits : Int) }, acc.2 ++ [(e.id, e.bits)])) (r1.1, r1.2.1)
-  let st := r2.1
-  let news := r2.2
-  let dels := r1.2.2
-  let st : St :=
-    if news.isEmpty && dels.isEmpty then st else
-    let cleared : St := { st with ecs := fun x => if x = s then fun _ _ => 0 else st.ecs x }
-    actual.foldl (fun st e => { st with ecs := upd3 st.ecs s e.disk e.id e.bits }) cleared
-  let st := news.foldl (fun st e => registerEc st e.1 e.2 s) st
-  dels.foldl (fun st e => unregisterEc st e.1 e.2 s) st
-
-/-- Disk.AddOrUpdateEcShard -/
-def addEc (st : St) (s : Nat) (e : EcInfo) : St :=
-  let old := st.ecs s e.disk e.id
-  let new := old ||| e.bits
-  upAdj { st with ecs := upd3 st.ecs s e.disk e.id new } s e.disk { ec := (popcount new : Int) - (popcount old : Int) }
-
-/-- Disk.DeleteEcShard -/
-def delEc (st : St) (s : Nat) (e : EcInfo) : St :=
-  let old := st.ecs s e.disk e.id
-  if old = 0 then st else
-  let new := bitsMinus old e.bits
-  upAdj { st with ecs := upd3 st.ecs s e.disk e.id new } s e.disk { ec := (popcount new : Int) - (popcount old : Int) }
+/-- Topology.SyncDataNodeEcShards (full EC heartbeat) -/
+def syncEcFull (st : St) (s : Nat) (actual : List EcInfo) : St :=
+  if !st.conn s then st else
+  let r := st.toCore.updateEcShards s actual
+  let st : St := { st with toCore := r.1 }
+  let st := r.2.1.foldl (fun st e => registerEc st e.1 e.2 s) st
+  r.2.2.foldl (fun st e => unregisterEc st e.1 e.2 s) st
 
 /-- Topology.IncrementalSyncDataNodeEcShards -/
 def syncEcInc (st : St) (s : Nat) (news dels : List EcInfo) : St :=
   if !st.conn s then st else
-  let st := news.foldl (fun st e => addEc st s e) st
-  let st := dels.foldl (fun st e => delEc st s e) st
+  let st : St := { st with toCore := st.toCore.deltaUpdateEcShards s news dels }
   let st := news.foldl (fun st e => registerEc st e.id e.bits s) st
   dels.foldl (fun st e => unregisterEc st e.id e.bits s) st
 
-/-! ## disconnect, refresh -/
+/-! ## connect, max counts, disconnect, refresh -/
+
+def conn (st : St) (s dc rack maxH maxS : Nat) : St := { st with toCore := st.toCore.connect s dc rack maxH maxS }
+
+def adjustMax (st : St) (s maxH maxS : Nat) : St := { st with toCore := st.toCore.adjustMax s maxH maxS }
 
 /-- Topology.UnRegisterDataNode -/
 def disc (st : St) (s : Nat) : St :=
   if !st.conn s then st else
   let st := (volumesOf st s).foldl (fun st v => setUnavailable st v s) st
-  let st := nodeUp st s 0 (st.cNode s 0).neg
-  let st := nodeUp st s 1 (st.cNode s 1).neg
-  { st with conn := upd1 st.conn s false }
+  { st with toCore := st.toCore.disconnect s }
 
 /-- the refresh round: every registered volume at or over the limit goes through SetVolumeCapacityFull -/
 def refresh (st : St) (nSrv : Nat) : St :=
